@@ -81,9 +81,15 @@ class InjectedFault(OSError):
     pass
 
 
+class Cancelled(BaseException):
+    """an interruption that is not an Exception (the family of KeyboardInterrupt, SystemExit, GeneratorExit,
+    asyncio.CancelledError) -- delivered at a read call"""
+
+
 class FaultFile(PyFile):
-    """PyFile whose k-th read() raises (mode 'raise') or from whose k-th read() on every
-    read returns b'' (mode 'eof': a file truncated at that point)."""
+    """PyFile whose k-th read() raises (mode 'raise': an OSError; mode 'cancel': a BaseException that is
+    not an Exception) or from whose k-th read() on every read returns b'' (mode 'eof': a file truncated
+    at that point)."""
 
     def __init__(self, data, k, mode="raise"):
         super().__init__(data)
@@ -96,6 +102,9 @@ class FaultFile(PyFile):
         if self.mode == "raise":
             if self.nreads == self.k:
                 raise InjectedFault("injected at read %d" % self.k)
+        elif self.mode == "cancel":
+            if self.nreads == self.k:
+                raise Cancelled("interrupted at read %d" % self.k)
         elif self.nreads >= self.k:
             return b""
         return super().read(n)
